@@ -147,13 +147,20 @@ def parse_pqr(text, whitespace=None):
             d = {"rec": rec, "serial": int(w[1]), "name": w[2], "resn": w[3]}
             rest = w[4:]
             chain = ""
-            try:
-                int(rest[0])
-            except ValueError:
-                chain = rest.pop(0)
+
+            def _isint(t):
+                return t.lstrip("-").isdigit() and t not in ("", "-")
+
+            if not _isint(rest[0]) and not (_isint(rest[0][:-1]) and rest[0][-1].isalpha()):
+                tok = rest.pop(0)
+                if len(tok) > 1 and (_isint(tok[1:]) or (_isint(tok[1:-1]) and tok[-1].isalpha())):
+                    chain, glued = tok[0], tok[1:]      # chain id glued to a full-width residue number (C08 finding)
+                    rest.insert(0, glued)
+                else:
+                    chain = tok
             resi_tok = rest.pop(0)
             icode = ""
-            if not resi_tok.lstrip("-").isdigit():
+            if not _isint(resi_tok):
                 icode = resi_tok[-1]
                 resi_tok = resi_tok[:-1]
             d.update(chain=chain, resi=int(resi_tok), icode=icode)
